@@ -187,6 +187,8 @@ pub fn varint_at(b: &[u8], pos: usize) -> Option<(u64, usize)> {
 }
 
 const UNBOUNDED: usize = usize::MAX;
+/// The walk gives up (no conclusion) on inputs with more length fields.
+pub const MAX_SITES: usize = 60_000;
 
 pub fn walk(b: &[u8], root: Msg) -> Walk {
     let n = b.len();
@@ -301,6 +303,9 @@ pub fn walk(b: &[u8], root: Msg) -> Walk {
                     FK::Varint | FK::F32 => SiteKind::Mismatch,
                 };
                 w.n_fields += 1;
+                if w.sites.len() >= MAX_SITES {
+                    stop!(Stop::Other("too_many_sites"));
+                }
                 w.sites.push(Site { tag_pos, len_pos, len_size: sz, value: len, body, kind, msg, field: num, depth });
                 if kind == SiteKind::Mismatch {
                     stop!(Stop::Other("type_mismatch"));
@@ -315,8 +320,9 @@ pub fn walk(b: &[u8], root: Msg) -> Walk {
                 }
                 match fk {
                     FK::Str => {
-                        call(&mut w, K_STRING, pos, len as u64, true);
-                        if std::str::from_utf8(&b[body..fend]).is_err() {
+                        let valid = std::str::from_utf8(&b[body..fend]).is_ok();
+                        call(&mut w, K_STRING, pos, len as u64, valid);
+                        if !valid {
                             stop!(Stop::Other("bad_utf8"));
                         }
                         pos = fend;
